@@ -230,13 +230,24 @@ def menu(gen):
         assert w.init_result and w.init_result[-1][:2] == ("returned", True), w.init_result
         return []
 
+    def reinit_same(w):
+        # the same, but nothing changed at the console meanwhile: the second life starts from the console's reports like the
+        # first one did, not from anything the first life remembered
+        w.spawn(w.at.shutdown())
+        w.loop.run_until(w.loop.time() + 1.0)
+        w.init_result.clear()
+        w.start_init()
+        w.loop.run_until(w.loop.time() + 1.0)
+        assert w.init_result and w.init_result[-1][:2] == ("returned", True), w.init_result
+        return []
+
     def repeat_last(w):
         return [w.console.ac_status_frame(), w.console.zone_status_frame()]
 
     return [("ac0-A", ac(0, "A")), ("ac0-B", ac(0, "B")), ("ac1-B", ac(1, "B")), ("both-acs", both_acs),
             ("zone0-A", zone(0, "A")), ("zone0-B", zone(0, "B")), ("zone2-B", zone(2, "B")), ("all-zones", all_zones),
             ("timer", timer), ("error-text", err_text), ("version", version), ("unknown-ids", unknown_entities),
-            ("ac1-timer-flag", timer_flag), ("repeat-all", repeat_last), ("reinit", reinit)]
+            ("ac1-timer-flag", timer_flag), ("repeat-all", repeat_last), ("reinit", reinit), ("reinit-same", reinit_same)]
 
 
 def run_history(job):
@@ -326,7 +337,7 @@ def run_two_clients(gen):
     for k in range(2 * len(m)):
         w, other, tag = (wa, wb, "A") if k % 2 == 0 else (wb, wa, "B")
         name, fn = m[(k // 2) % len(m)]
-        if name in ("reinit", "unknown-ids") or (w is wb and name in ("ac1-B", "both-acs", "timer", "ac1-timer-flag", "zone2-B")):
+        if name in ("reinit", "reinit-same", "unknown-ids") or (w is wb and name in ("ac1-B", "both-acs", "timer", "ac1-timer-flag", "zone2-B")):
             continue
         try:
             frames = fn(w)
@@ -403,7 +414,8 @@ def run(tier, seed, part=None):
         m = menu(gen)
         seqs = [s for d in range(1, depth + 1) for s in itertools.product(range(len(m)), repeat=d)]
         ri = [x[0] for x in m].index("reinit")
-        jobs = [(gen, s) for s in seqs] + [(gen, s, "batch") for s in seqs if len(s) > 1 and ri not in s]
+        rs = [x[0] for x in m].index("reinit-same")
+        jobs = [(gen, s) for s in seqs] + [(gen, s, "batch") for s in seqs if len(s) > 1 and ri not in s and rs not in s]
         res = explorer.pool().map(run_history, jobs, chunksize=32)
         for (g, s, *mode), (sig, msg, snap) in zip(jobs, res):
             total += len(s)
